@@ -106,7 +106,7 @@ func takeSnapshot(kind string, rd world.Reader, wtxn *fox.Txn, probe world.Probe
 func runC03Seq(src sim.Source, o Opts, res *Result) {
 	cfg := world.DrawCfg(src)
 	pc := world.PoolCfg{Size: 3 + src.Intn("poolsize", 9), MaxSegs: 1 + src.Intn("maxsegs", 5), Hosts: src.Intn("hosts", 3) == 2,
-		WildHeavy: sim.Bool(src, "wildheavy"), TSlash: src.Intn("tslash", 4), Fanout: src.Intn("fanout", 16) == 15, Deep: src.Intn("deep", 16) == 15, Odd: src.Intn("oddbytes", 5) == 4}
+		WildHeavy: sim.Bool(src, "wildheavy"), TSlash: src.Intn("tslash", 4), Fanout: src.Intn("fanout", 16) == 15, Deep: src.Intn("deep", 16) == 15, Odd: src.Intn("oddbytes", 5) == 4, Ladder: src.Intn("ladder", 10) == 9}
 	pool := world.GenPool(src, pc)
 	if len(pool) == 0 {
 		return
@@ -126,7 +126,7 @@ func runC03Seq(src sim.Source, o Opts, res *Result) {
 	var history []string
 	var live []*snapshot
 	nontrivial := false
-	if pc.Fanout || pc.Deep {
+	if pc.Fanout || pc.Deep || pc.Ladder {
 		if msg, ok := prefillFanout(src, w, committed, cfg, pool, &nextTag); ok {
 			history = append(history, msg)
 			if pc.Fanout {
